@@ -41,7 +41,9 @@ OWNED = {
     "PLANS": re.compile(r"planData|headStatus|subStatus|_taskStatus|TaskStatus|clearTaskStatus|verifyEmptyStatus|verifyPlans|updatePlan|wrapPlan|deepUpdatePlans|"
                         r"wideUpdatePlans|outerTransition|clearStatuses|tasksSuccesses|tasksFailures|planExists|\bplan\b|succeed|fail|operator\|=|operator\||"
                         r"_regionStateId|_regionSize|_locked"),
-    "TRANSITION_HISTORY": re.compile(r"transitionTargets|previousTransitions|pinLastTransition|lastTransition"),
+    # (approvedTargets: the pin-table snapshot of the round loops, a local that exists only with the feature - fix 19826da; its copy construction is
+    # the only StaticArrayT copy in the compared functions)
+    "TRANSITION_HISTORY": re.compile(r"transitionTargets|previousTransitions|pinLastTransition|lastTransition|approvedTargets|StaticArrayT::StaticArrayT"),
     "STRUCTURE_REPORT": re.compile(r"udpateActivity|getStateNames|deepGetNames|wideGetNames|_structure|_activityHistory|_prefixes|stateInfos"),
     "LOG": re.compile(r"logger|record\w+|::log\b|\.log\b|Method|StatusEvent|::context\b"),
     "UTILITY_THEORY": re.compile(r"rng\b|[Uu]tili|[Rr]andom|[Rr]ank\b|Rank\b|resolveRandom|\bUP\b"),
